@@ -145,29 +145,31 @@ theorem findHandler_schily (key : Bytes) : findHandler (schilyPrefix ++ key) = s
   rw [if_pos this]
 
 /-- the writer's record, with its total length `L` in front -/
-theorem schilyRecord_shape (key value : Bytes) :
-    ∃ L, schilyRecord key value = decStr L ++ 32 :: (schilyPrefix ++ key ++ 61 :: value ++ [10]) ∧
-      (schilyRecord key value).length = L ∧ numDigits L + 1 < L := by
+theorem schilyRecordRaw_shape (key value : Bytes) :
+    ∃ L, schilyRecordRaw key value = decStr L ++ 32 :: (schilyPrefix ++ key ++ 61 :: value ++ [10]) ∧
+      (schilyRecordRaw key value).length = L ∧ numDigits L + 1 < L := by
   refine ⟨13 + key.length + value.length + 3 + prefixDigitLen (13 + key.length + value.length + 3), ?_, ?_, ?_⟩
-  · unfold schilyRecord
+  · unfold schilyRecordRaw
     have hp : schilyPrefix.length = 13 := by decide
     simp only [hp, List.append_assoc, List.cons_append, List.nil_append]
-  · unfold schilyRecord
+  · unfold schilyRecordRaw
     have hp : schilyPrefix.length = 13 := by decide
     simp only [hp, List.length_append, decStr_length, prefixDigitLen_fix, List.length_cons, List.length_nil]
     omega
   · rw [prefixDigitLen_fix]; omega
 
-theorem paxLine_schily (st : PaxState) (key value rest : Bytes) (hk : ∀ x ∈ key, x ≠ 0 ∧ x ≠ 61) :
-    paxLine false st (schilyRecord key value ++ rest) =
-      some ({ st with out := { st.out with xattr := (key, value) :: st.out.xattr } }, (schilyRecord key value).length) := by
-  obtain ⟨L, hrec, hL, hLbig⟩ := schilyRecord_shape key value
+theorem paxLine_schilyRaw (pc : PaxCfg) (hpc : pc.keepOrder = false) (st : PaxState) (key value rest : Bytes)
+    (hk : ∀ x ∈ key, x ≠ 0 ∧ x ≠ 61) :
+    paxLine pc st (schilyRecordRaw key value ++ rest) =
+      some ({ st with out := { st.out with xattr := (if pc.schilyDecode then xattrDecodeKey key else key, value) :: st.out.xattr } },
+        (schilyRecordRaw key value).length) := by
+  obtain ⟨L, hrec, hL, hLbig⟩ := schilyRecordRaw_shape key value
   rw [hL]
   have hDlen := decStr_length L
   -- name the pieces
   generalize hD : decStr L = D at hrec hDlen
   have hTlen : (D ++ 32 :: (schilyPrefix ++ key ++ 61 :: value ++ [10])).length = L := by rw [← hrec]; exact hL
-  have hl : schilyRecord key value ++ rest = D ++ 32 :: (schilyPrefix ++ key ++ 61 :: value ++ [10] ++ rest) := by
+  have hl : schilyRecordRaw key value ++ rest = D ++ 32 :: (schilyPrefix ++ key ++ 61 :: value ++ [10] ++ rest) := by
     rw [hrec]; simp only [List.append_assoc, List.cons_append]
   rw [hl]
   unfold paxLine
@@ -242,18 +244,76 @@ theorem paxLine_schily (st : PaxState) (key value rest : Bytes) (hk : ∀ x ∈ 
   have hne : (schilyPrefix ++ key).isEmpty = false := by rw [schilyPrefix_eq]; rfl
   rw [hne]
   simp only [Bool.false_eq_true, if_false, List.dropLast_concat, findHandler_schily]
-  simp only [applyHandler, Bool.false_eq_true, if_false, kindFlag, setFlag, true_or, if_true]
+  simp only [applyHandler, hpc, Bool.false_eq_true, if_false, kindFlag, setFlag, true_or, if_true]
   have hdk : (schilyPrefix ++ key).drop 13 = key := List.drop_left' (by decide)
   rw [hdk]
 
-theorem schilyRecord_ne_nil (key value : Bytes) : schilyRecord key value ≠ [] := by
-  obtain ⟨L, _, hL, hbig⟩ := schilyRecord_shape key value
+/-! ### key escaping (`xattr_encode_keyword` / `xattr_decode_keyword`) -/
+
+theorem xattrDecode_encode (key : Bytes) : xattrDecodeKey (xattrEncodeKey key) = key := by
+  induction key with
+  | nil => rfl
+  | cons c t ih =>
+    unfold xattrEncodeKey
+    by_cases h1 : c = 37
+    · subst h1; simp only [if_true]; rw [xattrDecodeKey, ih]
+    · by_cases h2 : c = 61
+      · subst h2; simp only [if_neg h1, if_true]; rw [xattrDecodeKey, ih]
+      · simp only [if_neg h1, if_neg h2]
+        rw [xattrDecodeKey.eq_def]
+        split
+        · rename_i heq; exact absurd (List.cons.inj heq).1 h1
+        · rename_i heq; exact absurd (List.cons.inj heq).1 h1
+        · rename_i heq; obtain ⟨rfl, rfl⟩ := List.cons.inj heq; rw [ih]
+        · rename_i heq; cases heq
+
+theorem xattrEncode_clean (key : Bytes) (hk : ∀ x ∈ key, x ≠ 0) : ∀ x ∈ xattrEncodeKey key, x ≠ 0 ∧ x ≠ 61 := by
+  induction key with
+  | nil => intro x hx; cases hx
+  | cons c t ih =>
+    have iht := ih (fun y hy => hk y (List.mem_cons_of_mem _ hy))
+    have hc : c ≠ 0 := hk c (by simp)
+    intro x hx
+    unfold xattrEncodeKey at hx
+    by_cases h1 : c = 37
+    · simp only [h1, if_true, List.mem_cons] at hx
+      rcases hx with h | h | h | h
+      · rw [h]; decide
+      · rw [h]; decide
+      · rw [h]; decide
+      · exact iht x h
+    · by_cases h2 : c = 61
+      · subst h2
+        rw [if_neg (by decide), if_pos rfl] at hx
+        simp only [List.mem_cons] at hx
+        rcases hx with h | h | h | h
+        · rw [h]; decide
+        · rw [h]; decide
+        · rw [h]; decide
+        · exact iht x h
+      · simp only [if_neg h1, if_neg h2, List.mem_cons] at hx
+        rcases hx with h | h
+        · subst h; exact ⟨hc, h2⟩
+        · exact iht x h
+
+/-- the repaired writer's record through the repaired reader: every NUL-free key, '=' and '%' included -/
+theorem paxLine_schily (st : PaxState) (key value rest : Bytes) (hk : ∀ x ∈ key, x ≠ 0) :
+    paxLine {} st (schilyRecord key value ++ rest) =
+      some ({ st with out := { st.out with xattr := (key, value) :: st.out.xattr } }, (schilyRecord key value).length) := by
+  unfold schilyRecord
+  rw [paxLine_schilyRaw {} rfl st _ value rest (xattrEncode_clean key hk)]
+  simp only [if_true, xattrDecode_encode]
+
+theorem schilyRecordRaw_ne_nil (key value : Bytes) : schilyRecordRaw key value ≠ [] := by
+  obtain ⟨L, _, hL, hbig⟩ := schilyRecordRaw_shape key value
   intro h; rw [h] at hL; simp at hL; omega
+
+theorem schilyRecord_ne_nil (key value : Bytes) : schilyRecord key value ≠ [] := schilyRecordRaw_ne_nil _ _
 
 /-- the whole payload of `write_schily_xattr` through the record loop of `read_pax_header` -/
 theorem paxLoop_schily (xs : List (Bytes × Bytes)) :
-    ∀ (fuel : Nat) (st : PaxState), (∀ kv ∈ xs, ∀ x ∈ kv.1, x ≠ 0 ∧ x ≠ 61) → xs.length + 1 ≤ fuel →
-      paxLoop false fuel st ((xs.map fun kv => schilyRecord kv.1 kv.2).flatten) =
+    ∀ (fuel : Nat) (st : PaxState), (∀ kv ∈ xs, ∀ x ∈ kv.1, x ≠ 0) → xs.length + 1 ≤ fuel →
+      paxLoop {} fuel st ((xs.map fun kv => schilyRecord kv.1 kv.2).flatten) =
         some { st with out := { st.out with xattr := xs.reverse ++ st.out.xattr } } := by
   induction xs with
   | nil =>
